@@ -1013,8 +1013,8 @@ def run(ctx):
     if want("overlapping-names"):
         roots = []
         for names in ("overlap-ab", "overlap-aa"):
-            for n, ms in ((1, [0, 5]), (2, [0, 3]), (3, [1, 5])) if q else ((1, [0, 3, 5]), (2, [0, 2, 3]), (3, [1, 3, 5]), (4, [1, 4])):
-                if q and names == "overlap-aa" and n != 2:
+            for n, ms in ((1, [0, 5]), (2, [0, 3]), (3, [1, 5])) if q else ((1, [0, 5]), (2, [0, 2, 3]), (3, [1, 3, 5]), (4, [1, 4])):
+                if names == "overlap-aa" and (n != 2 if q else n in (1, 4)):
                     continue
                 roots.append(root("gl", n, names, 3, ms))
         ctx.bfs("overlapping-names", "checks.c05:case_overlap", roots, depth=3,
